@@ -545,6 +545,38 @@ func fixForm(is *IntentSpec) {
 	}
 }
 
+// dropCaseConflicts removes leaves so that an intent populates at most one case per choice instance
+// (an intent defining two cases of one choice is not valid YANG data).
+func dropCaseConflicts(si *world.SchemaInfo, leaves []*MLeaf) []*MLeaf {
+	chosen := map[string]string{}
+	var out []*MLeaf
+	for _, l := range leaves {
+		ok := true
+		for i := range l.Path {
+			node := si.Node(l.Path[:i+1])
+			if node == nil || node.Choice == "" {
+				continue
+			}
+			key := l.Path[:i].String() + "|" + node.Choice
+			if c, seen := chosen[key]; seen && c != node.Case {
+				ok = false
+				break
+			}
+		}
+		if !ok {
+			continue
+		}
+		for i := range l.Path {
+			node := si.Node(l.Path[:i+1])
+			if node != nil && node.Choice != "" {
+				chosen[l.Path[:i].String()+"|"+node.Choice] = node.Case
+			}
+		}
+		out = append(out, l)
+	}
+	return out
+}
+
 // GenTx generates one transaction of 1..MaxIntents intents.
 func (g *Gen) GenTx(m *Model) *TxSpec {
 	g.txN++
@@ -554,6 +586,12 @@ func (g *Gen) GenTx(m *Model) *TxSpec {
 	usedPrios := map[int32]bool{}
 	for j := 0; j < n; j++ {
 		if is := g.GenIntent(m, used, usedPrios); is != nil {
+			if !is.Delete {
+				is.Leaves = dropCaseConflicts(g.SI, is.Leaves)
+				if len(is.Leaves) == 0 {
+					continue
+				}
+			}
 			used[is.Name] = true
 			usedPrios[is.Prio] = true
 			tx.Intents = append(tx.Intents, *is)
@@ -576,6 +614,15 @@ func (g *Gen) GenR0() []*world.Leaf {
 	var ml []*MLeaf
 	for j := 0; j < n; j++ {
 		if l := g.pickSlotLeaf(nil, seen, nil); l != nil {
+			inChoice := false
+			for i := range l.Path {
+				if node := g.SI.Node(l.Path[:i+1]); node != nil && node.Choice != "" {
+					inChoice = true
+				}
+			}
+			if inChoice {
+				continue
+			}
 			seen[l.Key()] = true
 			ml = append(ml, l)
 		}
